@@ -173,6 +173,11 @@ class C18(Check):
             elif case_bits(case, "stream-fault") % 6 == 1:
                 stream_fault = dict(after=10**9, forever=False)  # progress display on a healthy stream
             debug_log = case_bits(case, "debug-logging") % 4 == 0
+            # a transient I/O error of the source on one row request: the creation fails, or it is complete - the
+            # slice is never skipped (round 7)
+            source_fault = None
+            if source == "dataframe" and stream_fault is None and case_bits(case, "source-fault") % 3 == 0:
+                source_fault = dict(at=int(case_bits(case, "source-fault-at") % 4))
             saved_defaults = []
 
             def run():
@@ -249,7 +254,7 @@ class C18(Check):
 
                 readers.DataChunkReader.__next__ = logging_next
                 if source == "dataframe":
-                    frame = sources.RecordingFrame(pd.DataFrame(cols), log)
+                    frame = sources.RecordingFrame(pd.DataFrame(cols), log, fail_at=None if source_fault is None else source_fault["at"])
                     Catalog.from_dataframe(tmp / "cat", frame, **names, **kw)
                 elif source == "random":
                     class LoggingRandoms(BoxRandoms):
@@ -275,8 +280,11 @@ class C18(Check):
             def run_tolerating_stream_fault():
                 try:
                     return run()
-                except OSError as e:
-                    if stream_fault is None:
+                except Exception as e:
+                    if source_fault is not None and any(ev["op"] == "rows_failed" for ev in partial_log["log"].events):
+                        # the injected source fault was reported (by whatever exception): judged as a partial run
+                        return dict(events=partial_log["log"].events, handed=partial_log["handed"], raised=f"{type(e).__name__}: {e}")
+                    if stream_fault is None or not isinstance(e, OSError):
                         raise
                     # the creation may fail when its progress output cannot be written; what it requested
                     # of the input until then is still judged
@@ -321,6 +329,10 @@ class C18(Check):
         events, handed = obs["events"], obs["handed"]
         partial = "raised" in obs  # creation gave up because its progress stream died
         counters = dict(requests_logged=len(events), chunks_handed_on=len(handed))
+        if source_fault is not None:
+            counters["source_fault_runs"] = 1
+            counters["source_fault_injected"] = int(any(e["op"] == "rows_failed" for e in events))
+            counters["source_fault_raised"] = int(partial)
         if stream_fault is not None:
             counters["stream_fault_runs"] = 1
             counters["stream_fault_raised"] = int(partial)
